@@ -826,6 +826,21 @@ def bool_fn_is(F, fn, atom_rx, negated=False):
     return ok, "result is %s%s" % ("" if table[frozenset([a])] else "!", a)
 
 
+def _has_explicit_exit(n):
+    """a `return` / `break` / `continue` written in n (the early exit of `?` does not count)"""
+    if isinstance(n, list):
+        return any(_has_explicit_exit(x) for x in n)
+    if not isinstance(n, dict):
+        return False
+    if is_try(n):
+        return _has_explicit_exit(untry(n))
+    if n.get("k") == "closure":
+        return False
+    if n.get("k") in ("ret", "break", "continue"):
+        return True
+    return any(_has_explicit_exit(v) for v in n.values() if isinstance(v, (dict, list)))
+
+
 def unlet(n, env=None, _mut=None):
     """copy of n in which immutable single-assignment locals (`let x = e;`) are replaced by their initialisers and the `let`
     removed — a normal form for data-flow rules that should not depend on which intermediate values were given names.
@@ -854,7 +869,8 @@ def unlet(n, env=None, _mut=None):
         for st in n.get("stmts", []):
             pat = st.get("pat", {}) if st.get("k") == "let" else {}
             if st.get("k") == "let" and pat.get("k") == "bind" and "sub" not in pat and st.get("init") is not None and st.get("els") is None \
-                    and "Mut" not in str(pat.get("mode", "")) and pat["id"] not in _mut:
+                    and "Mut" not in str(pat.get("mode", "")) and pat["id"] not in _mut \
+                    and not _has_explicit_exit(st["init"]):
                 env2[pat["id"]] = unlet(st["init"], env2, _mut)
                 continue
             stmts.append(unlet(st, env2, _mut))
